@@ -29,7 +29,7 @@ def build_jobs(t: str, sd: int):
             if v >= 9 and mode == "A":
                 # from version 9 the scratch-slot optimiser runs by default: store/load placement programs against the reference
                 from ..recipe import gen_opt
-                fams += gen_opt.opt_family(mode, v, False)[:: (1 if t != "quick" else 3)]
+                fams += gen_opt.opt_family(mode, v, False)
             if nrand:
                 fams += gen.random_family(mode, v, sd, nrand)
             for (name, rec, opts) in fams:
